@@ -108,6 +108,7 @@ type inst interface {
 	// SetRepeat makes every operation run twice on the same operands; the
 	// two results must be equal.
 	SetRepeat(on bool)
+	Soft() []*harnessViol
 }
 
 // decodeErr: UnmarshalBinary refused the bytes.
@@ -136,6 +137,7 @@ type adapter[P api[M, A, AS, IS, OS, PS, ST, PP], M, A, AS, IS, OS, PS, ST, PP a
 	pp     PP
 	l      layout
 	repeat bool // call every operation twice and compare
+	soft   []*harnessViol
 }
 
 func newAdapter[P api[M, A, AS, IS, OS, PS, ST, PP], M, A, AS, IS, OS, PS, ST, PP any](name string, fs int, v P) inst {
@@ -184,17 +186,59 @@ func enc[T any](typ string, x *T) ([]byte, error) {
 // gives b back (the decoder is canonical: accepted bytes are the encoding).
 func dec[T, PP any](pp *PP, typ string, b []byte, extra ...uint) (*T, error) {
 	y := newT[T](pp, extra...)
-	if err := any(y).(encoding.BinaryUnmarshaler).UnmarshalBinary(b); err != nil {
+	// The decoder gets its own buffer, which is overwritten as soon as it
+	// returns (a caller may reuse its receive buffer): the decoded value must
+	// not alias it.
+	buf := append(make([]byte, 0, len(b)+8), b...)
+	if len(b) == 0 && b == nil {
+		buf = nil
+	}
+	if err := any(y).(encoding.BinaryUnmarshaler).UnmarshalBinary(buf); err != nil {
 		return nil, &decodeErr{typ, err}
 	}
+	scribble(buf)
 	b2, err := any(y).(encoding.BinaryMarshaler).MarshalBinary()
 	if err != nil {
 		return nil, &harnessViol{"C19/marshal/" + typ + "/marshal-error", err.Error()}
 	}
 	if !bytes.Equal(b, b2) {
+		if len(b) == len(b2) && bytes.Equal(b2, buf) {
+			return nil, &harnessViol{"C19/marshal/" + typ + "/aliases-input-buffer", fmt.Sprintf("after the source buffer was overwritten the decoded value marshals to the new buffer contents %x instead of %x", b2, b)}
+		}
 		return nil, &harnessViol{"C19/marshal/" + typ + "/not-identity", fmt.Sprintf("in %x out %x", b, b2)}
 	}
 	return y, nil
+}
+
+// scribble overwrites a buffer the callee must no longer depend on: every
+// byte changes (inverted), so any aliasing shows.
+func scribble(b []byte) {
+	for i := range b {
+		b[i] = ^b[i]
+	}
+}
+
+func cloneMeas(m any) any {
+	switch v := m.(type) {
+	case []uint64:
+		return append([]uint64{}, v...)
+	case []bool:
+		return append([]bool{}, v...)
+	}
+	return m
+}
+
+func scribbleMeas(m any) {
+	switch v := m.(type) {
+	case []uint64:
+		for i := range v {
+			v[i] = ^v[i]
+		}
+	case []bool:
+		for i := range v {
+			v[i] = !v[i]
+		}
+	}
 }
 
 // same: the operand x still marshals to before (the call left it unchanged).
@@ -222,32 +266,69 @@ func errStr(err error) string {
 
 func (a *adapter[P, M, A, AS, IS, OS, PS, ST, PP]) SetRepeat(on bool) { a.repeat = on }
 
+// Soft drains the findings that do not stop the run (the adapter went on
+// with the values taken before the caller's buffers were overwritten).
+func (a *adapter[P, M, A, AS, IS, OS, PS, ST, PP]) Soft() []*harnessViol {
+	s := a.soft
+	a.soft = nil
+	return s
+}
+
 func (a *adapter[P, M, A, AS, IS, OS, PS, ST, PP]) Shard(m any, nonce *Nonce, rand []byte) ([]byte, [][]byte, error) {
-	mm, ok := m.(M)
-	if !ok {
+	if _, ok := m.(M); !ok {
 		panic(fmt.Sprintf("measurement %T", m))
 	}
 	name := a.l.name
 	mBefore := fmt.Sprintf("%v", m)
 	nBefore, rBefore := *nonce, append([]byte{}, rand...)
 	run := func() ([]byte, [][]byte, error) {
-		pub, ins, err := a.v.Shard(mm, nonce, rand)
+		// the callee gets private copies which are overwritten when it returns
+		mc := cloneMeas(m)
+		nc, rc := *nonce, append([]byte{}, rand...)
+		pub, ins, err := a.v.Shard(mc.(M), &nc, rc)
+		if fmt.Sprintf("%v", mc) != mBefore || nc != nBefore || !bytes.Equal(rc, rBefore) {
+			return nil, nil, &harnessViol{"C19/operand-modified/" + name + "/Shard/inputs", "Shard wrote to its measurement, nonce or randomness"}
+		}
 		if err != nil {
 			return nil, nil, &opErr{"Shard", err}
 		}
 		if len(ins) != a.l.shares {
 			return nil, nil, &harnessViol{"C19/shard/" + name + "/share-count", fmt.Sprintf("%d input shares for %d aggregators", len(ins), a.l.shares)}
 		}
-		pb, err := enc("PublicShare", &pub)
-		if err != nil {
-			return nil, nil, err
-		}
-		out := make([][]byte, len(ins))
-		for i := range ins {
-			out[i], err = enc("InputShare", &ins[i])
+		marshalAll := func() ([]byte, [][]byte, error) {
+			pb, err := enc("PublicShare", &pub)
 			if err != nil {
 				return nil, nil, err
 			}
+			out := make([][]byte, len(ins))
+			for i := range ins {
+				out[i], err = enc("InputShare", &ins[i])
+				if err != nil {
+					return nil, nil, err
+				}
+			}
+			return pb, out, nil
+		}
+		pb, out, err := marshalAll()
+		if err != nil {
+			return nil, nil, err
+		}
+		// the caller now reuses (here: overwrites) what it passed in; the
+		// returned shares must not depend on those buffers any more
+		scribbleMeas(mc)
+		scribble(nc[:])
+		scribble(rc)
+		pb1, out1, err := marshalAll()
+		if err != nil {
+			return nil, nil, err
+		}
+		if !bytes.Equal(pb, pb1) || !bytes.Equal(bytes.Join(out, nil), bytes.Join(out1, nil)) {
+			what := "input-shares"
+			if !bytes.Equal(pb, pb1) {
+				what = "public-share"
+			}
+			return nil, nil, &harnessViol{"C19/aliasing/" + name + "/Shard/" + what,
+				"the shares returned by Shard change when the caller overwrites the measurement, nonce and randomness it passed in (they alias the caller's buffers)"}
 		}
 		return pb, out, nil
 	}
@@ -276,7 +357,11 @@ func (a *adapter[P, M, A, AS, IS, OS, PS, ST, PP]) PrepInit(vk *VerifyKey, nonce
 	}
 	vkBefore, nBefore := *vk, *nonce
 	run := func() ([]byte, []byte, error) {
-		st, sh, err := a.v.PrepInit(vk, nonce, id, *ps, *is)
+		vc, nc := *vk, *nonce
+		st, sh, err := a.v.PrepInit(&vc, &nc, id, *ps, *is)
+		if vc != vkBefore || nc != nBefore {
+			return nil, nil, &harnessViol{"C19/operand-modified/" + name + "/PrepInit/key-or-nonce", "PrepInit wrote to the verify key or nonce"}
+		}
 		if err != nil {
 			return nil, nil, &opErr{"PrepInit", err}
 		}
@@ -287,6 +372,19 @@ func (a *adapter[P, M, A, AS, IS, OS, PS, ST, PP]) PrepInit(vk *VerifyKey, nonce
 		shb, err := enc("PrepShare", sh)
 		if err != nil {
 			return nil, nil, err
+		}
+		scribble(vc[:])
+		scribble(nc[:])
+		stb1, err := enc("PrepState", st)
+		if err != nil {
+			return nil, nil, err
+		}
+		shb1, err := enc("PrepShare", sh)
+		if err != nil {
+			return nil, nil, err
+		}
+		if !bytes.Equal(stb, stb1) || !bytes.Equal(shb, shb1) {
+			return nil, nil, &harnessViol{"C19/aliasing/" + name + "/PrepInit/key-or-nonce", "prep state or prep share change when the caller overwrites the verify key and nonce it passed in"}
 		}
 		return stb, shb, nil
 	}
